@@ -37,9 +37,10 @@ def _mc_one(args):
         common.cleanup(d)
 
 
-def build_trace(dassh, n, nd, dims, se2, wire, tid_cfg):
+def build_trace(dassh, n, nd, dims, se2, wire, tid_cfg, order='asc'):
     try:
-        rr = bs.make_region(dassh, n, dims, nd, se2=se2, wire_dir=wire)
+        rr = bs.make_region(dassh, n, dims, nd, se2=se2, wire_dir=wire,
+                            order=order)
         ev, proj = bs.bundle_events(rr)
         # the donor column the solver actually reads for this wire direction
         for o in ev:
@@ -89,6 +90,19 @@ def run(tier, res, replay=None):
                 traces.append(tr)
                 res.add_eval()
                 res.distinct((n, nd, se2, wire, k))
+                # the same bundle with the duct values listed in another
+                # order (nesting is by magnitude, not by position)
+                if nd >= 2 and (n % 3 == 2 or tier == 'thorough'):
+                    for order in ('desc', 'outer-first'):
+                        tr = build_trace(
+                            dassh, n, nd, dims, se2, wire,
+                            {'se2': int(se2), 'wire': wire, 'order': order,
+                             'dims': [float(f'{x:.9g}') for x in dims[:4]]
+                             + [[float(f'{x:.9g}') for x in dims[4]]]},
+                            order=order)
+                        traces.append(tr)
+                        res.add_eval()
+                        res.distinct((n, nd, se2, wire, k, order))
     # shard traces over TLC processes (one JVM per shard)
     shards = [traces[i::common.NCPU] for i in range(common.NCPU)]
     shards = [s for s in shards if s]
